@@ -2117,7 +2117,8 @@ fn c02_seq_to_bytes_exact() {
 	kani::cover!(true, "end of harness reached");
 }
 
-// @harness props=C02 also=C01 tier=thorough timeout=1800
+// (tier=off: the buffered-bytes path (no length hint) hits the 20 GB memory limit after ~400 s)
+// @harness props=C02 also=C01 tier=off timeout=1800
 // @bound u8 seq -> bytes (slow-sequence mode on) and -> fixed(2): 2 element(s) with symbolic values, advertised length None: consistent => spec-exact bytes; inconsistent with the number of elements / the fixed size => Err
 #[kani::proof]
 #[kani::unwind(6)]
